@@ -20,7 +20,7 @@ func HarnessNoProbesAfter() {
 	vProbeScripts["a0:80"] = healthy
 	vAssume(deployTimeout > 0)
 	vAssert(router.DeployService("svc", []string{"a0:80"}, ServiceOptions{Hosts: []string{"h"}}, topts, deployTimeout, drainTimeout) == nil, "probes: initial deploy succeeds")
-	scenario := vChoose("scenario", 5)
+	scenario := vChoose("scenario", 6)
 	concerned := []string{}
 	begin := vNow()
 	var err error
@@ -33,8 +33,10 @@ func HarnessNoProbesAfter() {
 		vProbeScripts["b0:80"] = healthy
 		err = router.DeployService("svc", []string{"b0:80"}, ServiceOptions{Hosts: []string{"h"}}, topts, deployTimeout, drainTimeout)
 		concerned = []string{"a0:80"}
-	case 2: // failed deploy: a target never becomes healthy
-		vProbeScripts["b0:80"] = healthy
+	case 2: // failed deploy: a target never becomes healthy (the other answers late but in time)
+		late := vDur("late")
+		vAssume(late < ptimeout && late < deployTimeout)
+		vProbeScripts["b0:80"] = &vProbeScript{outcomes: []vProbeOutcome{{kind: vProbeStatus, status: 200, latency: late}}}
 		vProbeScripts["b1:80"] = failing
 		err = router.DeployService("svc", []string{"b0:80", "b1:80"}, ServiceOptions{Hosts: []string{"h"}}, topts, deployTimeout, drainTimeout)
 		concerned = []string{"b0:80", "b1:80"}
@@ -44,6 +46,12 @@ func HarnessNoProbesAfter() {
 		err = router.DeployService("other", []string{"c0:80"}, ServiceOptions{Hosts: []string{"h"}}, topts, deployTimeout, drainTimeout)
 		concerned = []string{"c0:80"}
 		wantErr = true
+	case 5: // rollout targets deployed (no split set), then the service is removed
+		vProbeScripts["r0:80"] = healthy
+		vAssert(router.SetRolloutTargets("svc", []string{"r0:80"}, deployTimeout, drainTimeout) == nil, "probes: rollout deploy succeeds")
+		begin = vNow()
+		err = router.RemoveService("svc")
+		concerned = []string{"a0:80", "r0:80"}
 	case 4: // failed rollout deploy: never healthy
 		vProbeScripts["r0:80"] = failing
 		err = router.SetRolloutTargets("svc", []string{"r0:80"}, deployTimeout, drainTimeout)
@@ -84,7 +92,7 @@ func HarnessNoProbesAfter() {
 	}
 	// deadlines and promptness (virtual clock)
 	switch scenario {
-	case 0:
+	case 0, 5:
 		vAssert(ret == begin, "deadline: remove returns without waiting")
 	case 1:
 		vAssert(ret == begin, "deadline: a deploy whose targets answer at once, with nothing in flight, returns at once")
